@@ -5,8 +5,9 @@ CONSTANT ResVals <- Res2
 CONSTANT OffVals = {0}
 CONSTANT Thrs <- ThrSym
 CONSTANT MaxIters = {0, 2}
-CONSTANT MaxDrops = 0
+CONSTANT MaxDrops = 1
 CONSTANT WithFail = FALSE
+CONSTANT NBk = 2
 CONSTANT MinGood = 1
 INIT Init
 NEXT Next
@@ -15,3 +16,6 @@ INVARIANT C10_SortIsArgsort
 INVARIANT C10_ZeroWeightNeverUsed
 INVARIANT C10_MaskInCallerOrder
 INVARIANT C10_PermutationInvariance
+INVARIANT C10_BreakpointsOnlyShrink
+INVARIANT C10_ResidualsOnBreakpointsInEffect
+INVARIANT C10_ReturnedCurveOnReturnedBreakpoints
